@@ -68,7 +68,8 @@ CLAIMS = {
         "text": ("Theorems for every insertion history, key list and direction vector: Criteria::cmp is a total preorder; "
                  "the echelon (BTreeMap<K,Vec<V>>) layer refines stable insertion into a list; the unlimited ordered result "
                  "is a permutation of the buffered rows with non-decreasing keys and stable ties — stated on `orderedPieces`, "
-                 "the function the model prints. That the buffered rows equal the rows of the query without ORDER BY, and the "
+                 "the function the model prints; a key listed a second time, in whatever direction, never changes the comparison "
+                 "(repeated_key_irrelevant). That the buffered rows equal the rows of the query without ORDER BY, and the "
                  "positional/unselected-key clauses, are decided by the correspondence (model vs binary) and the oracle "
                  "(permutation of the unordered run; adjacent pairs ordered under an independent comparator), not by proof."),
         "ref": "DESIGN.md §4 C05",
@@ -85,7 +86,8 @@ CLAIMS = {
         "technique": "Lean 4 theorems on the aggregate model (decimal render/parse round trip; COUNT/SUM/MIN/AVG specifications in ℚ) + CLI correspondence + Python Fraction oracle",
         "text": ("Theorems for every list of naturals rendered in decimal under the aggregated column (any length, machine range): "
                  "parse∘show = id on naturals, COUNT = number of rows, SUM = Σ, MIN is an attained lower bound, AVG = Σ/n in ℚ (not "
-                 "truncated; D14 fixed), empty-result values. The variances/standard deviations are modelled in ℚ and compared "
+                 "truncated; D14 fixed), empty-result values; for a column that is empty for some entries (line_count of a directory): SUM skips "
+                 "them and AVG = SUM / number of entries (sum_spec_partial, avg_spec_partial). The variances/standard deviations are modelled in ℚ and compared "
                  "numerically (relative tolerance 1e-9) with the binary and with a Python Fraction/math oracle; their f64 rounding, "
                  "'WHERE before aggregation' and 'aggregate of a scalar expression' are decided by correspondence/oracle, not by proof."),
         "ref": "DESIGN.md §4 C07",
